@@ -358,47 +358,74 @@ def div(a, b):
     pd = _proportional_div(a2, b2)
     if pd is not None:
         return pd
-    den = b2.re * b2.re + b2.im * b2.im
+    # polynomial normal forms (sum of monomials) so that equal quotients are syntactically equal terms
+    nf = lambda e: z3.simplify(e, som=True)     # noqa: E731
+    den = nf(b2.re * b2.re + b2.im * b2.im)
     return C(Or_(a2.nan, b2.nan, den == 0),
-             (a2.re * b2.re + a2.im * b2.im) / den,
-             (a2.im * b2.re - a2.re * b2.im) / den)
+             nf(a2.re * b2.re + a2.im * b2.im) / den,
+             nf(a2.im * b2.re - a2.re * b2.im) / den)
 
 
 def _proportional_div(a, b):
-    """(k1 * Z) / (k2 * Z) = k1 / k2 for a complex lazy sum Z = (zr, zi) and real k1, k2 (non-finite when k2 == 0
-    or Z == 0): an exact algebraic identity that spares the solver a rational-function proof."""
+    """(k1 * Z) / (k2 * Z) = k1 / k2 for complex Z that is a linear form in lazy-sum atoms and real k1, k2
+    (non-finite when k2 == 0 or Z == 0): an exact algebraic identity that spares the solver a rational-function
+    proof.  Recognised syntactically: numerator and denominator are linear in the same sum atoms with
+    coefficient pairs of one common ratio."""
     c = cur()
     sums = c.memo.get("sums")
     if not sums:
         return None
-    seen = set()
-    for info in list(sums.values()):
-        if len(info.comps) != 2:
-            continue
-        zr, zi_ = info.comps
-        key = zr.sexpr()
-        if key in seen:
-            continue
-        seen.add(key)
-        one, zero = z3.RealVal(1), z3.RealVal(0)
-        ks = []
-        ok = True
-        for (re, im) in ((a.re, a.im), (b.re, b.im)):
-            re_s, im_s = z3.simplify(re), z3.simplify(im)
-            k = z3.simplify(z3.substitute(re_s, (zr, one), (zi_, zero)))
-            k2 = z3.simplify(z3.substitute(im_s, (zr, zero), (zi_, one)))
-            if k.sexpr() != k2.sexpr():
-                ok = False
-                break
-            # linearity check: re == k*zr and im == k*zi syntactically after simplification
-            if z3.simplify(re_s - k * zr).sexpr() != "0.0" or z3.simplify(im_s - k * zi_).sexpr() != "0.0":
-                ok = False
-                break
-            ks.append(k)
-        if ok:
-            k1, k2 = ks
-            return C(Or_(a.nan, b.nan, k2 == 0, And_(zr == 0, zi_ == 0)), k1 / k2, z3.RealVal(0))
-    return None
+    atoms = {}
+    for e in (b.re, b.im):
+        st = [z3.simplify(e)]
+        seen = set()
+        while st:
+            x = st.pop()
+            if x.get_id() in seen:
+                continue
+            seen.add(x.get_id())
+            if z3.is_app(x) and x.sexpr() in sums:
+                atoms[x.sexpr()] = x
+                continue
+            st.extend(x.children())
+    if not atoms:
+        return None
+    atoms = list(atoms.values())
+    zero, one = z3.RealVal(0), z3.RealVal(1)
+
+    def coefs(e):
+        """coefficients of e as a linear form in the atoms, or None"""
+        e = z3.simplify(e)
+        cs = []
+        lin = zero
+        for u in atoms:
+            sub = [(v, one if v.eq(u) else zero) for v in atoms]
+            cu = z3.simplify(z3.substitute(e, *sub))
+            cs.append(cu)
+            lin = lin + cu * u
+        if z3.simplify(e - lin, som=True).sexpr() not in ("0.0", "0"):
+            return None
+        return cs
+    ratio = None
+    for (x, y) in ((a.re, b.re), (a.im, b.im)):
+        cx, cy = coefs(x), coefs(y)
+        if cx is None or cy is None:
+            return None
+        for p, q in zip(cx, cy):
+            qz = z3.simplify(q).sexpr() in ("0.0", "0")
+            pz = z3.simplify(p).sexpr() in ("0.0", "0")
+            if qz and pz:
+                continue
+            if qz != pz:
+                return None
+            if ratio is None:
+                ratio = (p, q)
+            elif z3.simplify(p * ratio[1] - ratio[0] * q, som=True).sexpr() not in ("0.0", "0"):
+                return None
+    if ratio is None:
+        return None
+    k1, k2 = ratio
+    return C(Or_(a.nan, b.nan, k2 == 0, And_(b.re == 0, b.im == 0)), k1 / k2, z3.RealVal(0))
 
 
 def floordiv(a, b):
